@@ -1136,78 +1136,75 @@ Proof.
   - split; [|reflexivity]. intros _. exists 0%nat. reflexivity.
 Qed.
 
-Theorem copy_undefined_iff_proof a nid : arena_ok a -> (copy_ctor a nid = None <-> copy_reads_uninit a = true).
-Proof.
-  intros OK. pose proof (ok_bpos _ OK) as BP. unfold copy_ctor, copy_reads_uninit.
-  destruct (copy_entries (a_tbl a) nid) as [t|] eqn:E.
-  - split; [discriminate|]. intros H. apply Z.ltb_lt in H. exfalso.
-    assert (X : copy_entries (a_tbl a) nid = None).
-    { apply copy_entries_none. exists (Z.to_nat (a_bpos a)). apply (ok_uninit _ OK). lia. }
-    congruence.
-  - split; [|reflexivity]. intros _. apply Z.ltb_lt. apply copy_entries_none in E. destruct E as (k & Hk).
-    destruct (Z_lt_ge_dec (Z.of_nat k) (a_bpos a)) as [Lt|Ge].
-    + exfalso. destruct (ok_bufs _ OK (Z.of_nat k) ltac:(lia)) as (bf & G & _). unfold get_buf in G. rewrite Nat2Z.id, Hk in G. discriminate.
-    + assert (k < length (a_tbl a))%nat by (apply nth_error_Some; congruence). unfold a_tsz. lia.
-Qed.
+Lemma nth_error_firstn_lt {A} (l : list A) : forall n k, (k < n)%nat -> nth_error (firstn n l) k = nth_error l k.
+Proof. induction l as [|x r IH]; intros [|n] [|k] H; simpl; try reflexivity; try lia. apply IH; lia. Qed.
+Lemma nth_error_firstn_ge {A} (l : list A) : forall n k, (n <= k)%nat -> nth_error (firstn n l) k = None.
+Proof. intros n k H. apply nth_error_None. rewrite firstn_length. lia. Qed.
 
 Lemma contents_ext a c : a_pos c = a_pos a -> (forall i, get_cell c i = get_cell a i) -> contents c = contents a.
 Proof. intros E H. unfold contents. rewrite E. apply map_ext. intros k. apply get_of_cell, H. Qed.
 
+(* the copy constructor is defined on every arena and exact: same size, capacity, buffer count, table capacity, every cell
+   equal, fresh buffers only (deep copy) *)
 Theorem copy_equal_proof a nid :
-  arena_ok a -> copy_reads_uninit a = false ->
+  arena_ok a ->
   exists c n', copy_ctor a nid = Some (c, n') /\
     a_pos c = a_pos a /\ a_cap c = a_cap a /\ a_bpos c = a_bpos a /\ a_tsz c = a_tsz a /\
     (forall i, get_cell c i = get_cell a i) /\ contents c = contents a /\
     (forall b bf, get_buf c b = Some bf -> (nid <= bid bf < n')%nat) /\
     arena_ok c.
 Proof.
-  intros OK NU.
-  destruct (copy_ctor a nid) as [[c n']|] eqn:E; [|apply copy_undefined_iff_proof in E; [congruence|exact OK]].
-  exists c, n'. split; [reflexivity|]. unfold copy_ctor in E.
-  destruct (copy_entries (a_tbl a) nid) as [t|] eqn:CE; [|discriminate]. injection E as <- <-.
-  destruct (copy_entries_spec _ _ _ CE) as (L & N). simpl.
-  assert (GB : forall b, get_buf (Arena (a_lg a) (a_bsz a) (a_mask a) (a_pos a) (a_cap a) t (a_bpos a) 0) b =
-                         option_map (fun bf => Buf (nid + Z.to_nat b) (cells bf)) (get_buf a b)).
-  { intros b. unfold get_buf; simpl. rewrite N. destruct (nth_error (a_tbl a) (Z.to_nat b)) as [[bf|]|]; reflexivity. }
-  assert (GC : forall i, get_cell (Arena (a_lg a) (a_bsz a) (a_mask a) (a_pos a) (a_cap a) t (a_bpos a) 0) i = get_cell a i).
-  { intros i. unfold get_cell. rewrite GB. unfold buf_index, buf_off; simpl. destruct (get_buf a (Z.shiftr i (a_lg a))); reflexivity. }
-  split; [reflexivity|]. split; [reflexivity|]. split; [reflexivity|]. split; [unfold a_tsz; simpl; congruence|].
+  intros OK. pose proof (ok_bpos _ OK) as BP. unfold a_tsz in BP.
+  unfold copy_ctor. replace (a_bpos a >? a_tsz a) with false by (symmetry; unfold a_tsz; rewrite Z.gtb_ltb; apply Z.ltb_ge; lia).
+  set (used := Z.to_nat (a_bpos a)).
+  assert (Hu : (used <= length (a_tbl a))%nat) by (unfold used; lia).
+  destruct (copy_entries (firstn used (a_tbl a)) nid) as [t|] eqn:CE.
+  2:{ exfalso. apply copy_entries_none in CE. destruct CE as (k & Hk).
+      destruct (Nat.lt_ge_cases k used) as [Lt|Ge]; [|rewrite nth_error_firstn_ge in Hk by exact Ge; discriminate].
+      rewrite nth_error_firstn_lt in Hk by exact Lt.
+      destruct (ok_bufs _ OK (Z.of_nat k) ltac:(unfold used in Lt; lia)) as (bf & G & _). unfold get_buf in G. rewrite Nat2Z.id, Hk in G. discriminate. }
+  destruct (copy_entries_spec _ _ _ CE) as (L & N). rewrite firstn_length, Nat.min_l in L by exact Hu.
+  eexists _, _. split; [reflexivity|]. cbn [a_pos a_cap a_bpos].
+  set (c := Arena (a_lg a) (a_bsz a) (a_mask a) (a_pos a) (a_cap a) (t ++ repeat None (length (a_tbl a) - used)) (a_bpos a) 0).
+  assert (TL : length (a_tbl c) = length (a_tbl a)) by (unfold c; simpl; rewrite app_length, repeat_length; lia).
+  assert (NT : forall k, nth_error (a_tbl c) k =
+                         option_map (fun e => match e with Some bf => Some (Buf (nid + k) (cells bf)) | None => None end) (nth_error (a_tbl a) k)).
+  { intros k. unfold c; simpl. destruct (Nat.lt_ge_cases k used) as [Lt|Ge].
+    - rewrite nth_error_app1 by lia. rewrite N, nth_error_firstn_lt by exact Lt. reflexivity.
+    - rewrite nth_error_app2 by lia. destruct (Nat.lt_ge_cases k (length (a_tbl a))) as [Lt2|Ge2].
+      + rewrite nth_error_repeat by lia.
+        pose proof (ok_uninit _ OK (Z.of_nat k) ltac:(unfold a_tsz, used in *; lia)) as U. rewrite Nat2Z.id in U. rewrite U. reflexivity.
+      + replace (nth_error (a_tbl a) k) with (@None (option buf)) by (symmetry; apply nth_error_None; exact Ge2).
+        apply nth_error_None. rewrite repeat_length. lia. }
+  assert (GB : forall b, get_buf c b = option_map (fun bf => Buf (nid + Z.to_nat b) (cells bf)) (get_buf a b)).
+  { intros b. unfold get_buf. rewrite NT. destruct (nth_error (a_tbl a) (Z.to_nat b)) as [[bf|]|]; reflexivity. }
+  assert (GC : forall i, get_cell c i = get_cell a i).
+  { intros i. unfold get_cell. replace (buf_index c i) with (buf_index a i) by reflexivity. replace (buf_off c i) with (buf_off a i) by reflexivity.
+    rewrite GB. destruct (get_buf a (buf_index a i)); reflexivity. }
+  split; [reflexivity|]. split; [reflexivity|]. split; [reflexivity|]. split; [unfold a_tsz; rewrite TL; reflexivity|].
   split; [exact GC|]. split; [apply contents_ext; [reflexivity|exact GC]|]. split.
   - intros b bf H. rewrite GB in H. destruct (get_buf a b) as [bf0|] eqn:G0; [|discriminate]. injection H as <-. simpl.
-    unfold get_buf in G0. assert (Z.to_nat b < length (a_tbl a))%nat.
-    { apply nth_error_Some. destruct (nth_error (a_tbl a) (Z.to_nat b)); [discriminate|discriminate G0]. }
+    (* only entries below buffersPos_ are buffers *)
+    assert (Z.to_nat b < used)%nat.
+    { destruct (Nat.lt_ge_cases (Z.to_nat b) used) as [Lt|Ge]; [exact Lt|exfalso]. unfold get_buf in G0.
+      destruct (Nat.lt_ge_cases (Z.to_nat b) (length (a_tbl a))) as [Lt2|Ge2].
+      - pose proof (ok_uninit _ OK (Z.of_nat (Z.to_nat b)) ltac:(unfold a_tsz, used in *; lia)) as U. rewrite Nat2Z.id in U.
+        rewrite U in G0. discriminate.
+      - replace (nth_error (a_tbl a) (Z.to_nat b)) with (@None (option buf)) in G0 by (symmetry; apply nth_error_None; exact Ge2). discriminate. }
     lia.
-  - destruct OK as [A1 A2 A3 A4]. constructor; simpl.
+  - destruct OK as [A1 A2 A3 A4]. constructor.
     + exact A1.
-    + unfold a_tsz in *; simpl. rewrite L. exact A2.
+    + unfold a_tsz. rewrite TL. exact A2.
     + intros b Hb. rewrite GB. destruct (A3 b Hb) as (bf & G & Lb). rewrite G. simpl. eexists; split; [reflexivity|exact Lb].
-    + unfold a_tsz in *; simpl. rewrite L. intros b Hb. rewrite N, (A4 b Hb). reflexivity.
+    + unfold a_tsz. rewrite TL. intros b Hb. rewrite NT. unfold a_tsz in A4. rewrite (A4 b Hb). reflexivity.
 Qed.
 
-(* the property for the copy constructor, and its refutation *)
-Definition copy_statement : Prop :=
-  forall a nid, arena_wf a -> exists c n', copy_ctor a nid = Some (c, n') /\ a_pos c = a_pos a /\ contents c = contents a.
-
-Theorem copy_refuted_proof :
-  exists a1 n1 a r n,
-    new_arena 2 0 0 = Some (a1, n1) /\ grow a1 5 n1 = Some (a, r, n) /\ arena_wf a /\ a_pos a = 5 /\ a_bpos a = 3 /\ a_tsz a = 4 /\
-    copy_reads_uninit a = true /\ copy_ctor a n = None.
-Proof.
-  destruct (new_arena 2 0 0) as [[a1 n1]|] eqn:E1; [|vm_compute in E1; discriminate].
-  destruct (grow a1 5 n1) as [[[a r] n]|] eqn:E2; [|vm_compute in E1; injection E1 as <- <-; vm_compute in E2; discriminate].
-  exists a1, n1, a, r, n. split; [reflexivity|]. split; [exact E2|].
-  destruct (new_arena_spec_proof 2 0 0 a1 n1 ltac:(lia) E1) as (WF1 & _).
-  destruct (grow_spec_proof a1 5 n1 a r n WF1 ltac:(lia) E2) as (_ & _ & WF & _).
-  split; [exact WF|].
-  vm_compute in E1. injection E1 as <- <-. vm_compute in E2. injection E2 as <- <- <-.
-  vm_compute. repeat split; reflexivity.
-Qed.
-
-Theorem copy_statement_false_proof : ~ copy_statement.
-Proof.
-  intros H. destruct copy_refuted_proof as (a1 & n1 & a & r & n & _ & _ & WF & _ & _ & _ & _ & CN).
-  destruct (H a n WF) as (c & n' & E & _). congruence.
-Qed.
+(* the former refutation witness (minBuffSize 2, grow to 5 elements: 3 buffers in a table of 4) is now copied exactly *)
+Theorem copy_regression_proof :
+  exists a1 n1 a r n c n',
+    new_arena 2 0 0 = Some (a1, n1) /\ grow a1 5 n1 = Some (a, r, n) /\ a_pos a = 5 /\ a_bpos a = 3 /\ a_tsz a = 4 /\
+    copy_ctor a n = Some (c, n') /\ shape c = shape a /\ contents c = repeat (Some dflt) 5 /\ contents a = repeat (Some dflt) 5.
+Proof. vm_compute. do 7 eexists. repeat split; reflexivity. Qed.
 
 (* ---- move construction, move assignment, swap, copy assignment on the slots *)
 Lemma slot_set_same w s a n : (s < length (w_slots w))%nat -> slot (set_slot w s (Some a) n) s = Some a.
@@ -1263,17 +1260,13 @@ Qed.
 
 Theorem copy_op_exact_proof w d s a w' out :
   slot w s = Some a -> arena_ok a -> exec_op w (OCopy d s) = Some (w', out) ->
-  copy_reads_uninit a = false /\
   exists c, slot w' d = Some c /\ slot w' s = Some a /\ a_pos c = a_pos a /\ contents c = contents a /\
             (forall b bf, get_buf c b = Some bf -> (w_next w <= bid bf)%nat).
 Proof.
   intros Hs OK H. simpl in H. rewrite Hs in H. destruct (slot_empty w d) eqn:E; [|discriminate].
   destruct (copy_ctor a (w_next w)) as [[c n]|] eqn:CC; [|discriminate]. injection H as <- <-.
   destruct (slot_empty_lt _ _ E) as (Ld & Nd).
-  assert (NU : copy_reads_uninit a = false).
-  { destruct (copy_reads_uninit a) eqn:U; [|reflexivity]. apply (copy_undefined_iff_proof a (w_next w) OK) in U. congruence. }
-  split; [exact NU|].
-  destruct (copy_equal_proof a (w_next w) OK NU) as (c' & n' & CC' & P1 & _ & _ & _ & _ & P2 & P3 & _).
+  destruct (copy_equal_proof a (w_next w) OK) as (c' & n' & CC' & P1 & _ & _ & _ & _ & P2 & P3 & _).
   rewrite CC in CC'. injection CC' as <- <-.
   exists c. split; [apply slot_set_same; exact Ld|]. split.
   - rewrite slot_set_other; [exact Hs|]. intros ->. congruence.
@@ -1282,15 +1275,11 @@ Qed.
 
 Theorem assign_exact_proof w d s a old w' out :
   slot w s = Some a -> slot w d = Some old -> arena_ok a -> exec_op w (OAssign d s) = Some (w', out) ->
-  copy_reads_uninit a = false /\
   exists c, slot w' d = Some c /\ a_pos c = a_pos a /\ contents c = contents a /\ (d <> s -> slot w' s = Some a).
 Proof.
   intros Hs Hd OK H. simpl in H. rewrite Hs, Hd in H.
   destruct (copy_ctor a (w_next w)) as [[c n]|] eqn:CC; [|discriminate]. injection H as <- _.
-  assert (NU : copy_reads_uninit a = false).
-  { destruct (copy_reads_uninit a) eqn:U; [|reflexivity]. apply (copy_undefined_iff_proof a (w_next w) OK) in U. congruence. }
-  split; [exact NU|].
-  destruct (copy_equal_proof a (w_next w) OK NU) as (c' & n' & CC' & P1 & _ & _ & _ & _ & P2 & _).
+  destruct (copy_equal_proof a (w_next w) OK) as (c' & n' & CC' & P1 & _ & _ & _ & _ & P2 & _).
   rewrite CC in CC'. injection CC' as <- <-.
   pose proof (slot_some_lt _ _ _ Hd) as Ld.
   exists c. split; [unfold slot; simpl; rewrite nth_error_upd_eq by exact Ld; reflexivity|].
@@ -1308,10 +1297,10 @@ Qed.
 Lemma copy_wf a nid c n' : arena_wf a -> copy_ctor a nid = Some (c, n') -> arena_wf c.
 Proof.
   intros (OK & Hp & Hc) E.
-  assert (NU : copy_reads_uninit a = false).
-  { destruct (copy_reads_uninit a) eqn:U; [|reflexivity]. apply (copy_undefined_iff_proof a nid OK) in U. congruence. }
-  destruct (copy_equal_proof a nid OK NU) as (c' & n2 & E' & P1 & P2 & P3 & _ & _ & _ & _ & OKc).
+  destruct (copy_equal_proof a nid OK) as (c' & n2 & E' & P1 & P2 & P3 & _ & _ & _ & _ & OKc).
   rewrite E in E'. injection E' as <- <-.
-  split; [exact OKc|]. rewrite P1, P2, P3. unfold copy_ctor in E. destruct (copy_entries (a_tbl a) nid); [|discriminate].
-  injection E as <- _. simpl. auto.
+  assert (B : a_bsz c = a_bsz a).
+  { unfold copy_ctor in E. destruct (a_bpos a >? a_tsz a); [discriminate|]. destruct (copy_entries _ _); [|discriminate].
+    injection E as <- _. reflexivity. }
+  split; [exact OKc|]. rewrite P1, P2, P3, B. auto.
 Qed.
